@@ -442,3 +442,146 @@ def check_error(text, err, doc):
             return "Bad indentation reported although %r %s" % (lw, "extends the current level" if lw.startswith(levels[-1]) else "is an open level")
         return None
     return "unknown error kind"
+
+
+# ---------------------------------------------------------------------------
+# C11: grammar-directed generator of small parseable modules that stress the formatter's
+# spacing decisions (operator adjacency incl. unary +/- after binary operators, inline
+# documentation / comments with trailing blanks on neighbouring rows, odd gaps)
+# ---------------------------------------------------------------------------
+
+BINOPS = ["+", "-", "*", "==", "!=", "<", "<=", ">", ">=", "&&", "||"]
+TAILS = ["", "", "", "  -- doc", "  -- doc   ", "  -- d \t", "  # c", "  # c   ", "  --", "  --   ", "  #", "  #  ",
+         "  -- much longer documentation text  ", "  #comment without space"]
+
+
+class FmtGen:
+    def __init__(self, rng):
+        self.r = rng
+
+    # -- expressions (syntax only; the parser is the oracle for validity) --
+    def atom(self, d):
+        r = self.r
+        k = r.random()
+        if k < 0.30:
+            return r.choice(["a", "b", "x", "a.b", "$next", "$size_in_bytes", "Enum.VALUE"])
+        if k < 0.60:
+            return r.choice(["0", "1", "2", "10", "0x10", "0b1", "1_000", "255"])
+        if k < 0.70:
+            return r.choice(["true", "false"])
+        if k < 0.85 and d > 0:
+            return "(" + self.expr(d - 1) + ")"
+        if d > 0:
+            return r.choice(["$max", "$present", "$upper_bound", "$lower_bound"]) + "(" + ", ".join(
+                self.expr(d - 1) for _ in range(r.choice([1, 1, 2, 3]))) + ")"
+        return "0"
+
+    def unary(self, d):
+        r = self.r
+        k = r.random()
+        if k < 0.30:
+            return r.choice(["-", "+", "- ", "+ "]) + self.atom(d)
+        return self.atom(d)
+
+    def expr(self, d):
+        r = self.r
+        n = r.choice([1, 1, 2, 2, 3])
+        parts = [self.unary(d)]
+        op = r.choice(BINOPS)
+        for _ in range(n - 1):
+            if r.random() < 0.5:
+                op = r.choice(["+", "-", "*", op])
+            parts.append(r.choice([" ", " ", "", "  "]) + op + r.choice([" ", " ", "", "  "]))
+            parts.append(self.unary(d))
+        s = "".join(parts)
+        if r.random() < 0.12 and d > 0:
+            s = s + " ? " + self.expr(d - 1) + " : " + self.expr(d - 1)
+        return s
+
+    def tail(self):
+        # trailing blanks after inline documentation are rare on purpose: that construct has a listed
+        # defect (found by sweep()), and modules free of it probe for other defects
+        r = self.r
+        if r.random() < 0.04:
+            return r.choice(["  -- doc   ", "  -- d \t", "  --   ", "  -- much longer documentation text  "])
+        return r.choice(["", "", "", "  -- doc", "  # c", "  # c   ", "  --", "  #", "  #  ", "  -- much longer documentation text",
+                         "  #comment without space"])
+
+    def field(self, ind, names):
+        r = self.r
+        nm = r.choice(["a", "bb", "ccc", "long_field_name", "x"]) + str(len(names))
+        names.append(nm)
+        k = r.random()
+        gap = lambda: r.choice(["  ", "  ", " ", "   ", "\t"])
+        if k < 0.55:
+            ty = r.choice(["UInt", "Int", "Flag", "UInt:8", "Bcd", "Foo", "UInt:8[4]", "UInt[]", "Enum"])
+            loc = r.choice(["0", "1", "$next", self.expr(1)]) + gap() + "[+" + r.choice(["1", "4", self.expr(1)]) + "]"
+            line = ind + loc + gap() + ty + gap() + nm
+            if r.random() < 0.2:
+                line += " (" + r.choice(["q", "abbr"]) + ")"
+            return [line + self.tail()]
+        if k < 0.80:
+            return [ind + "let " + nm + " = " + self.expr(2) + self.tail()]
+        if k < 0.90:
+            return [ind + "[requires: " + self.expr(2) + "]" + r.choice(["", "  # c", "  # c  "])]
+        body = self.field(ind + "  ", names)
+        return [ind + "if " + self.expr(1) + ":" + r.choice(["", "  # c", "  # c  "])] + body
+
+    def module(self):
+        r = self.r
+        lines = []
+        if r.random() < 0.3:
+            lines += ["# header comment" + r.choice(["", "  "]), ""]
+        if r.random() < 0.3:
+            lines += ["-- module doc" + r.choice(["", "   "])]
+        if r.random() < 0.3:
+            lines += ['[$default byte_order: "LittleEndian"]' + r.choice(["", "  # c "])]
+        for _ in range(r.choice([1, 1, 2, 3])):
+            kind = r.random()
+            if kind < 0.6:
+                head = r.choice(["struct", "bits"]) + " " + r.choice(["Foo", "Bar", "BazQux"])
+                if r.random() < 0.2:
+                    head += "(p: UInt:8)"
+                lines.append(head + ":" + r.choice(["", "", "  # h", "  # h  "]))
+                if r.random() < 0.3:
+                    lines.append("  -- type doc" + r.choice(["", "  "]))
+                names = []
+                for _ in range(r.choice([1, 2, 2, 3, 5])):
+                    lines += self.field("  ", names)
+                    if r.random() < 0.15:
+                        lines.append(r.choice(["", "  # standalone", "    -- field doc" + r.choice(["", "", "", "  "])]))
+            else:
+                lines.append("enum " + r.choice(["Enum", "Kind"]) + ":" + r.choice(["", "  # h "]))
+                for i in range(r.choice([1, 2, 3, 4])):
+                    lines.append("  " + r.choice(["A", "BB", "LONG_NAME", "V"]) + "_%d" % i + r.choice([" ", "  ", "   "]) + "=" +
+                                 r.choice([" ", "  "]) + r.choice([str(i), self.expr(1)]) + self.tail())
+            if r.random() < 0.5:
+                lines.append("")
+        return "\n".join(lines) + r.choice(["\n", "\n", ""])
+
+    # -- systematic part, identical for every seed: small enough to run each time --
+    @staticmethod
+    def sweep():
+        out = []
+        ctxs = ["struct Foo:\n  0 [+1]  UInt  a\n  let b = %s\n",
+                "struct Foo:\n  0 [+%s]  UInt  a\n",
+                "struct Foo:\n  0 [+1]  UInt  a\n  if %s:\n    1 [+1]  UInt  b\n",
+                "enum Enum:\n  VALUE = %s\n",
+                "struct Foo:\n  0 [+1]  UInt  a\n    [requires: %s]\n"]
+        for c in ctxs:
+            for op in ["+", "-", "*", "==", "<", "&&"]:
+                for un in ["-", "+"]:
+                    for lhs, rhs in (("a", "1"), ("1", "a"), ("(a)", "(1)")):
+                        out.append(("sweep-operators", c % ("%s %s %s%s" % (lhs, op, un, rhs))))
+            out.append(("sweep-operators", c % "a - -1 - -1"))
+            out.append(("sweep-operators", c % "-a - -(-1)"))
+        tails = ["", "  -- doc", "  -- doc   ", "  # c", "  # c   ", "  --", "  --   ", "  #", "  #   "]
+        rows = [("struct Foo:", "  0 [+1]  UInt  a%s", "  1 [+1]  UInt  bb%s"),
+                ("bits Foo:", "  0 [+1]  Flag  a%s", "  1 [+1]  Flag  bb%s"),
+                ("enum Enum:", "  A = 1%s", "  BB = 2%s"),
+                ("struct Foo:", "  let a = 1%s", "  let bb = 2%s")]
+        for h, r1, r2 in rows:
+            for t1 in tails:
+                for t2 in tails:
+                    out.append(("sweep-row-tails", h + "\n" + (r1 % t1) + "\n" + (r2 % t2) + "\n"))
+        return out
